@@ -56,6 +56,8 @@ def run_case(spec):
     dp = DilatedPair(world, expected=expected)
     drv = ScriptDriver(dp, rng, names=names, max_opens=4, max_writes=25, sizes=(1, 10, 300, 20000), late_listen=0.5,
                        half=spec["half"], close_prob=1.0, listen_names=listen_names, reactive=rng.choice([0, 0, 6, 14]), falsy=rng.choice([0.0, 0.0, 0.0, 0.5]))
+    # (drv.escaping stays 0: an exception that the application lets escape from connectionLost() is an application
+    #  defect, and on the unmodified tree it already costs other subchannels their records - DESIGN 8.3)
     late_listens = sum(len(v) for v in drv.pending_listen.values())
     # writes attempted right after a local close, while records of the peer may still be on their way
     early_wac = []
@@ -255,7 +257,7 @@ def run_case(spec):
     nontrivial = trace_digest(sch) if (nsub and closes) else None
     benign = {"CloseForMissingSubchannelError", "DataForMissingSubchannelError"}
     return {"violations": viol, "nontrivial": nontrivial,
-            "counters": {"subchannels": nsub, "closes": closes, "writes_after_close": writes_after_close, "writes_right_after_close": len(early_wac), "unencodable_names_tried": bad_name["tried"], "calls_from_inside_protocol_callbacks": drv.reactions_done, "false_factories": drv.falsy_factories, "undeclared_opens": undeclared,
+            "counters": {"subchannels": nsub, "closes": closes, "writes_after_close": writes_after_close, "writes_right_after_close": len(early_wac), "unencodable_names_tried": bad_name["tried"], "calls_from_inside_protocol_callbacks": drv.reactions_done, "errors_escaping_connectionLost": drv.escaped, "false_factories": drv.falsy_factories, "undeclared_opens": undeclared,
                          "late_listens": late_listens, "half_protocols": sum(isinstance(p, HalfRecProto) for p in all_protos),
                          "opens": len(drv.opens), "notrans_seen": len(MON.notrans)},
             "sets": {"write_after_close_errors": sorted({e for (_, e, _) in wac_errors if e} | {e[1] for e in early_wac if e[1]}),
